@@ -76,9 +76,9 @@ package reporting
 //@   ensures forall j int :: 0 <= j && j < len(result.lineNumbers) ==> result.lineNumbers[j] == start + j + 1
 //@   ensures len(result.content) <= before + after + 1
 //@   assigns r.lineCache[all]
-//@   loop 1 invariant start <= i && len(result.content) == i - start && len(result.lineNumbers) == i - start
+//@   loop 1 invariant start <= $v && len(result.content) == $v - start && len(result.lineNumbers) == $v - start
 //@   loop 1 invariant forall j int :: 0 <= j && j < len(result.lineNumbers) ==> result.lineNumbers[j] == start + j + 1
-//@   loop 1 invariant end < len(lines) && reporterOK(r) && (i <= end + 1 || i == start)
+//@   loop 1 invariant end < len(lines) && reporterOK(r) && ($v <= end + 1 || $v == start)
 
 // ---- C17 / C08: what is emitted ---------------------------------------------------------------------------------
 // A diagnostic is emitted for a violation iff the suppression set does not cover (code, position); the code looked
@@ -93,7 +93,7 @@ package reporting
 //@   ensures strings.HasPrefix(result, hdr)
 //@   loop 1 invariant strings.HasPrefix(builder.$content, hdr)
 //@   loop 2 invariant strings.HasPrefix(builder.$content, hdr)
-//@   loop 3 invariant i >= 1 && strings.HasPrefix(builder.$content, hdr)
+//@   loop 3 invariant $v >= 1 && strings.HasPrefix(builder.$content, hdr)
 
 //@ func Reporter.ReportViolation
 //@   props C17 C08 C07 C10
